@@ -1283,7 +1283,7 @@ fn codec_random(rng: &mut Rng) -> Vec<u64> {
     }
 }
 fn codec_systematic(out: &mut Vec<Vec<u64>>) {
-    let mut rng = Rng::new(0xC04);
+    let mut rng = Rng::derive(0xC04);
     // every extreme length under two limits, delivered whole, polled 6 times (re-polling after the error)
     for max in [64u64, 70 * 1024] {
         for v in all_extremes().into_iter().chain([max - 1, max, max + 1]) {
@@ -1467,7 +1467,7 @@ fn tls_mutant(rng: &mut Rng, der: &[u8]) -> Vec<u8> {
 }
 pub fn feature_systematic(tls_seed: Option<&[u8]>) -> Vec<Vec<u64>> {
     let mut out = Vec::new();
-    let mut rng = Rng::new(0x7151);
+    let mut rng = Rng::derive(0x7151);
     if let Some(der) = tls_seed {
         out.push(c1(18, der));
         for i in (0..=der.len()).step_by(3) {
@@ -1831,13 +1831,13 @@ pub fn random_case(rng: &mut Rng) -> Vec<u64> {
 /// lie; depth bombs around the recursion limit; the frame-length extremes under two limits.
 pub fn systematic(thorough: bool) -> Vec<Vec<u64>> {
     let mut out = Vec::new();
-    let mut rng = Rng::new(0xC19);
+    let mut rng = Rng::derive(0xC19);
     gen_net::systematic(&mut out, thorough);
     noise_systematic(&mut out, thorough);
     codec_systematic(&mut out);
     select_systematic(&mut out);
     {
-        let mut rng = Rng::new(0x7a);
+        let mut rng = Rng::derive(0x7a);
         for len in [0u32, 1, 256 * 1024, 256 * 1024 + 1, 1 << 20, (1 << 20) + 1, u32::MAX] {
             for ty in 0..4u8 {
                 for flags in [0u16, 1, 2] {
